@@ -67,6 +67,8 @@ func c03Queries(r *RNG, blks []Blk) []cid.Cid {
 }
 
 type c03Archive struct {
+	lyingIndex bool // the CARv2 carries an index with wrong offsets
+	realIndex bool // the CARv2 carries the index GenerateIndex (default options) makes of its payload
 	blks    []Blk
 	payload []byte // header + sections (+ zero padding)
 	hlen    int
@@ -115,20 +117,31 @@ func genC03Archive(r *RNG, c *Ctx) c03Archive {
 		indexed := false
 		switch r.Intn(4) {
 		case 0: // nothing after the payload
-		case 1: // a real index right after the payload
-			var recs []index.Record
-			for i := range a.blks {
-				recs = append(recs, index.Record{Cid: a.blks[i].Cid, Offset: uint64(i)})
+		case 1: // the index of the payload (as GenerateIndex with default options makes it), or one that lies
+			if idx, err := carv2.GenerateIndex(bytes.NewReader(a.payload), carv2.ZeroLengthSectionAsEOF(true)); err == nil && r.Chance(70) {
+				var ib bytes.Buffer
+				index.WriteTo(idx, &ib)
+				trailer = ib.Bytes()
+				indexed = true
+				a.realIndex = true
+				c.Count("archive:v2-with-its-index")
+			} else {
+				var recs []index.Record
+				for i := range a.blks {
+					recs = append(recs, index.Record{Cid: a.blks[i].Cid, Offset: uint64(i)})
+				}
+				idx, _ := index.New(0x0401)
+				idx.Load(recs)
+				var ib bytes.Buffer
+				index.WriteTo(idx, &ib)
+				trailer = ib.Bytes()
+				indexed = true
+				a.lyingIndex = true
 			}
-			idx, _ := index.New(0x0401)
-			idx.Load(recs)
-			var ib bytes.Buffer
-			index.WriteTo(idx, &ib)
-			trailer = ib.Bytes()
-			indexed = true
 		case 2: // index padding (zeros) then garbage
 			trailer = append(make([]byte, r.Intn(20)), r.Bytes(r.Intn(30))...)
 			indexed = r.Bool()
+			a.lyingIndex = indexed
 		case 3: // bytes that look like another section
 			trailer = refPayload(nil, []Blk{genBlock(r, genOpts{maxData: 10})})
 		}
@@ -174,7 +187,7 @@ func idxgenHdrTable(file []byte) Val {
 	return hdrs
 }
 
-var c03SourceNames = []string{"bytes.Reader", "read-seeker", "plain-reader", "os.File", "reader-at", "bufio.Reader", "bytes.Buffer", "iotest.DataErrReader", "iotest.HalfReader", "iotest.OneByteReader"}
+var c03SourceNames = []string{"bytes.Reader", "read-seeker", "plain-reader", "os.File", "reader-at", "bufio.Reader", "bytes.Buffer", "iotest.DataErrReader", "iotest.HalfReader", "iotest.OneByteReader", "ReadOrGenerateIndex(bytes.Reader)", "ReadOrGenerateIndex(read-seeker)"}
 
 func emitIdxGen(c *Ctx, kind uint64, o gOpts, file []byte, codec uint64, qs []cid.Cid, expect Val, nontrivial bool) {
 	hdrs := idxgenHdrTable(file)
@@ -222,8 +235,8 @@ func c03Malformed(c *Ctx, r *RNG, a c03Archive, qs []cid.Cid, budget int) {
 		}
 		c.Count("malformed:" + what)
 	}
-	all := []uint64{0, 1, 2, 3, 4, 5, 6, 7, 8, 9}
-	noFile := []uint64{0, 1, 2, 4, 5, 6, 7, 8, 9}
+	all := []uint64{0, 1, 2, 3, 4, 5, 6, 7, 8, 9, 10, 11}
+	noFile := []uint64{0, 1, 2, 4, 5, 6, 7, 8, 9, 10, 11}
 	// truncations: every prefix of a small archive, sampled otherwise
 	for k := 0; k < len(a.file); k++ {
 		if len(a.file) > 120 && !(c.Thorough && len(a.file) <= 400) && r.Intn(len(a.file)/40+1) != 0 {
@@ -333,8 +346,28 @@ func init() {
 					c.Count("opts:zero-length-as-eof")
 				}
 				for _, codec := range c03Codecs {
-					for kind := uint64(0); kind < uint64(len(c03SourceNames)); kind++ {
+					for kind := uint64(0); kind < 10; kind++ {
 						emitIdxGen(c, kind, o, a.file, codec, qs, expect, len(a.blks) >= 2 && feat)
+					}
+					if codec == codecInsertion {
+						continue
+					}
+					// ReadOrGenerateIndex: with an index in the file it is read, not generated -- the
+					// property's clauses then apply when that index is the payload's own and was built
+					// with the options in force (defaults; its codec decides the key), else
+					// correspondence only
+					exp := expect
+					if a.lyingIndex {
+						exp = VL{VT("none")}
+					} else if a.realIndex {
+						if o.storeID || o.maxCid != defaultGOpts.maxCid || codec != 0x0401 {
+							exp = VL{VT("none")}
+						} else if len(exp) == 5 {
+							exp = VL{exp[0], exp[1], exp[2], exp[3], vbool(false)} // nothing is scanned: padding is not seen
+						}
+					}
+					for kind := uint64(10); kind < 12; kind++ {
+						emitIdxGen(c, kind, o, a.file, codec, qs, exp, len(a.blks) >= 2 && feat)
 					}
 				}
 				expect = VL{VT("valid"), VN(a.hlen), blksVal(a.blks), VB(a.payload), vbool(a.padded)}
@@ -361,7 +394,7 @@ func c03BigArchives(c *Ctx) {
 		}
 		vs := []variant{{0, 0x0400, false, false}, {2, 0x0401, false, false}, {7, 0x0400, true, true}, {3, 0x0401, true, true}, {0, codecInsertion, false, true}}
 		if c.Thorough {
-			for k := uint64(0); k < uint64(len(c03SourceNames)); k++ {
+			for k := uint64(0); k < 10; k++ {
 				vs = append(vs, variant{k, pick(c.R, []uint64{0x0400, 0x0401}), c.R.Bool(), c.R.Bool()})
 			}
 		}
